@@ -22,19 +22,19 @@ TRUST = ('Trusted base: CPython ast module as the reader of /repo; the '
 CLAIMED = {
     'C01': dict(
         technique='typestate/dominance on per-function CFGs; producer/consumer key-set inclusion over the AST; format-constant agreement; SQL-token check of emitted templates',
-        text='Structural necessary conditions only, not the multiset equality itself: (R1) on every path to RuleStructure.AsSql in SingleRuleSql/FunctionSql the structure went through ExtractRuleStructure -> RunInjections -> ElliminateInternalVariables(full) -> UnificationsToConstraints, and injected structures are eliminated before InjectStructure; (R2) every expression/literal/proposition kind the parser can build has a consumer branch; (R3) every site naming a positional column uses col<N> and every writer of the functional value uses logica_value; (R4) rules of one predicate are joined by UNION ALL without DISTINCT and GROUP BY is emitted only for distinct_vars. Breaking any of them changes rows or makes compilation fail for whole classes of programs; the checks see every branch of every function on every run, which no finite set of goldens does. Added after the seeded-change rounds: (R5) multiplicities - conjunction of DNFs is a product, disjunction a concatenation, every rewritten functional call gets its own conjunct, injection merges every component, WHERE is the AND of all constraints; (R6) the SQL of an infix operator and of a combine is one parenthesised group on every path out of ConvertToSql (abstract interpretation with string skeletons). (R7) no method of QL reachable from ConvertToSql stores into the expression tree it is given (sharing-level analysis: the same expression object stands at every use of a variable).',
+        text='Structural necessary conditions only, not the multiset equality itself: (R1) on every path to RuleStructure.AsSql in SingleRuleSql/FunctionSql the structure went through ExtractRuleStructure -> RunInjections -> ElliminateInternalVariables(full) -> UnificationsToConstraints, and injected structures are eliminated before InjectStructure; (R2) every expression/literal/proposition kind the parser can build has a consumer branch; (R3) every site naming a positional column uses col<N> and every writer of the functional value uses logica_value; (R4) rules of one predicate are joined by UNION ALL without DISTINCT and GROUP BY is emitted only for distinct_vars. Breaking any of them changes rows or makes compilation fail for whole classes of programs; the checks see every branch of every function on every run, which no finite set of goldens does. Added after the seeded-change rounds: (R5) multiplicities - conjunction of DNFs is a product, disjunction a concatenation, every rewritten functional call gets its own conjunct, injection merges every component, WHERE is the AND of all constraints; (R6) the SQL of an infix operator and of a combine is one parenthesised group on every path out of ConvertToSql (abstract interpretation with string skeletons). (R7) no method of QL reachable from ConvertToSql stores into the expression tree it is given (sharing-level analysis: the same expression object stands at every use of a variable). Every rule body goes through PropositionToDNF; an inclusion is an unnesting on every path.',
         ref='3/C01'),
     'C05': dict(
         technique='post-dominance / guarded-by on CFGs, abstract interpretation of CheckForError, parser-key vs visitor-key inclusion, call-graph reachability of constraint generators',
-        text='Structural necessary conditions only, not soundness of inference: (R1) in RunTypechecker and SingleRuleSql inference is always followed by the error search in raise mode over the same rules before AsSql, and CheckForError(raise) raises TypeErrorCaughtException whenever an error was found (all paths, abstract interpretation); (R2) every key under which the parser stores a sub-expression is visited by ExpressionsIterator and every Act* constraint generator is reachable from the inference passes; (R3) whole-program and per-structure checking are gated by the same ShouldTypecheck(); (R4) pod literals get Num/Str/Bool. (R5) dependencies of a predicate accumulate over all its rules and rules are inferred in dependency order; (R6) closing a record literal redirects the end of the reference chain and happens after its fields are unified. (R7) combine scoping of type variables: the scope is snapshotted after its own variables were registered and a fresh copy of the snapshot is restored after every nested combine.',
+        text='Structural necessary conditions only, not soundness of inference: (R1) in RunTypechecker and SingleRuleSql inference is always followed by the error search in raise mode over the same rules before AsSql, and CheckForError(raise) raises TypeErrorCaughtException whenever an error was found (all paths, abstract interpretation); (R2) every key under which the parser stores a sub-expression is visited by ExpressionsIterator and every Act* constraint generator is reachable from the inference passes; (R3) whole-program and per-structure checking are gated by the same ShouldTypecheck(); (R4) pod literals get Num/Str/Bool. (R5) dependencies of a predicate accumulate over all its rules and rules are inferred in dependency order; (R6) closing a record literal redirects the end of the reference chain and happens after its fields are unified. (R7) combine scoping of type variables: the scope is snapshotted after its own variables were registered and a fresh copy of the snapshot is restored after every nested combine. Two unified lists both receive the unified element references.',
         ref='3/C05'),
     'C09': dict(
         technique='interface conformance over the class hierarchy (signature vs every call site), format-string parsing of every template table entry with arity from abstract interpretation of BuiltInFunctionArityRange, CFG dominance for placeholder handling and WITH ordering',
-        text='Four of the five clauses, structurally: (R1) every method the pipeline invokes on a dialect object, with the argument shape of each call site, is accepted by each of the eight dialect classes; (R2) every function/infix/unnest/array/analytic template formats without ValueError/KeyError/IndexError for every admissible argument count and has an arity source; (R4) UNUSED entries are handled before the generic loop, the DUMMY() UDF bootstrap is overwritten, the nil marker is a SQL comment and filtered; (R5) a WITH dependency is appended after its own dependencies were compiled, once, and emitted in recorded order. Alias scoping (alias.column refers to an enclosing FROM) is run-time data of RuleStructure and is NOT decided; bracket/quote balance of emitted text is added by C09-R3 when the template-skeleton engine is built. (R3) every maximal string-building expression of the emitters and every template has balanced brackets and closed quotes with holes as atoms; the application style (positional vs named) of each template table matches its call site; (R5 also) compile-per-parent WITH recording. R1 respects Name() guards of dialect-specific calls; R3 also requires every string literal to be one closed literal of the dialect (the exhaustive check of C10-R1).',
+        text='Four of the five clauses, structurally: (R1) every method the pipeline invokes on a dialect object, with the argument shape of each call site, is accepted by each of the eight dialect classes; (R2) every function/infix/unnest/array/analytic template formats without ValueError/KeyError/IndexError for every admissible argument count and has an arity source; (R4) UNUSED entries are handled before the generic loop, the DUMMY() UDF bootstrap is overwritten, the nil marker is a SQL comment and filtered; (R5) a WITH dependency is appended after its own dependencies were compiled, once, and emitted in recorded order. Alias scoping (alias.column refers to an enclosing FROM) is run-time data of RuleStructure and is NOT decided; bracket/quote balance of emitted text is added by C09-R3 when the template-skeleton engine is built. (R3) every maximal string-building expression of the emitters and every template has balanced brackets and closed quotes with holes as atoms; the application style (positional vs named) of each template table matches its call site; (R5 also) compile-per-parent WITH recording. R1 respects Name() guards of dialect-specific calls; R3 also requires every string literal to be one closed literal of the dialect (the exhaustive check of C10-R1). SortUnnestings counts variables inside combines among the dependencies of an unnesting.',
         ref='3/C09'),
     'C13': dict(
         technique='inter-procedural set-order taint analysis (kinds, effect summaries, return/parameter/attribute flow to a fixpoint) with premise-checked exemptions; global-state inventory with data/control dependence and all-paths re-establishment on the CFG; nondeterminism-source confinement; deep-copy provenance',
-        text='This is the property static analysis suits best: hash-seed and process-history dependence are invisible to a test run and visible in the code. (R1) no iteration order of a set reaches a list, string, allocator numbering, emitted statement or the insertion order of a dict that is iterated later, anywhere in parse/compiler/type-inference modules, except 8 named constructs whose normalising consumer is itself checked on every run; (R2) every run-time write to module/class level state is never read, a constant cache, or assigned on all paths of its writer; shared containers are never mutated in place; (R3) time/identity/random sources reach only the stop-signal file name, timers and identity bookkeeping; (R4) caller-owned rules and shared template tables are deep-copied before any in-place rewrite. Decides absence of these two mechanisms of non-determinism, not byte equality itself.',
+        text='This is the property static analysis suits best: hash-seed and process-history dependence are invisible to a test run and visible in the code. (R1) no iteration order of a set reaches a list, string, allocator numbering, emitted statement or the insertion order of a dict that is iterated later, anywhere in parse/compiler/type-inference modules, except 8 named constructs whose normalising consumer is itself checked on every run; (R2) every run-time write to module/class level state is never read, a constant cache, or assigned on all paths of its writer; shared containers are never mutated in place; (R3) time/identity/random sources reach only the stop-signal file name, timers and identity bookkeeping; (R4) caller-owned rules and shared template tables are deep-copied before any in-place rewrite. Decides absence of these two mechanisms of non-determinism, not byte equality itself. Objects of the caller that the constructors keep as they are (rules, user flags) are never written to by any method.',
         ref='3/C13'),
     'C14': dict(
         technique='dominance / must-pass-through on CFGs of the edge-recording and queue-owning functions; ownership scan of the action queue; direction agreement between edge writer and reader',
@@ -42,7 +42,7 @@ CLAIMED = {
         ref='3/C14'),
     'C18': dict(
         technique='abstract interpretation of OkInjection / LimitClause under annotation scenarios (present, absent, zero); control dependence of InjectStructure on OkInjection; return-expression composition in PredicateSql; producer/consumer table agreement for denotations',
-        text='Structural clauses, not the row order SQLite returns: (R1) OkInjection is false on every path when @OrderBy or @Limit is present and every InjectStructure is control dependent on it; (R2) every non-raising return of PredicateSql carries body + OrderByClause(name) + LimitClause(name) in that order and all nested uses compile through PredicateSql; (R3) an arbitrary int limit including 0 still blocks injection and emits LIMIT, absence emits nothing; (R4) denotation keys written by ParseRule are the keys read by AnnotationsFromDenotations and map to registered annotations read by OrderBy()/LimitOf(). OkInjection is asked about the predicate whose rules are injected; denotations become annotations before the parser rewrites that duplicate rules. Annotations inherited by functor clones are read from state recomputed after every application.',
+        text='Structural clauses, not the row order SQLite returns: (R1) OkInjection is false on every path when @OrderBy or @Limit is present and every InjectStructure is control dependent on it; (R2) every non-raising return of PredicateSql carries body + OrderByClause(name) + LimitClause(name) in that order and all nested uses compile through PredicateSql; (R3) an arbitrary int limit including 0 still blocks injection and emits LIMIT, absence emits nothing; (R4) denotation keys written by ParseRule are the keys read by AnnotationsFromDenotations and map to registered annotations read by OrderBy()/LimitOf(). OkInjection is asked about the predicate whose rules are injected; denotations become annotations before the parser rewrites that duplicate rules. Annotations inherited by functor clones are read from state recomputed after every application. Positional annotation arguments are taken in numeric order of their position.',
         ref='3/C18'),
     'C19': dict(
         technique='catalogue of guarded raise sites located by exception type + polarity-aware guard dependence; must-call (post-dominance) of validators; call-graph reachability from the entry points; handler discipline on the call paths and at the CLI',
@@ -50,7 +50,7 @@ CLAIMED = {
         ref='3/C19'),
     'C02': dict(
         technique='dominance on the CFG of ExtractRuleStructure; argument provenance at the combine call chain; set-difference shape of the GROUP BY key computation; exhaustiveness of dialect GroupBySpecBy constants; constructor/consumer key-set agreement of aggregation nodes',
-        text='Structural necessary conditions only, not aggregate values or null behaviour: (R1) DisambiguateCombineVariables runs on the private copy before value inlining, select and body extraction; (R2) a combine is translated with the current vocabulary and is_combine=True, the flag and vocabulary are forwarded unchanged, DecorateCombineRule is applied iff is_combine, FROM sub-queries see only the external vocabulary; (R3) GROUP BY keys are exactly select keys minus aggregated keys of distinct rules, in all three dialect modes, and every dialect answers GroupBySpecBy() with a handled mode; (R4) + and ++ map to existing built-ins, every constructor of an aggregation node builds the key set the rewrite consumes, negation is IsNull(combine Min/Max= 1). (R5) the SQLite aggregate UDFs behind ArgMin/ArgMax/Set/List are arrival-order independent, keep the heap discipline of their K-best buffers (max-heap primitives only on the max-heap, buffer heapified before replacement) and never test data values for truthiness. The GROUP BY key list is exactly the select keys in distinct_vars (no further filter); DisambiguateCombineVariables has no exit before the loop over the sub-combines.',
+        text='Structural necessary conditions only, not aggregate values or null behaviour: (R1) DisambiguateCombineVariables runs on the private copy before value inlining, select and body extraction; (R2) a combine is translated with the current vocabulary and is_combine=True, the flag and vocabulary are forwarded unchanged, DecorateCombineRule is applied iff is_combine, FROM sub-queries see only the external vocabulary; (R3) GROUP BY keys are exactly select keys minus aggregated keys of distinct rules, in all three dialect modes, and every dialect answers GroupBySpecBy() with a handled mode; (R4) + and ++ map to existing built-ins, every constructor of an aggregation node builds the key set the rewrite consumes, negation is IsNull(combine Min/Max= 1). (R5) the SQLite aggregate UDFs behind ArgMin/ArgMax/Set/List are arrival-order independent, keep the heap discipline of their K-best buffers (max-heap primitives only on the max-heap, buffer heapified before replacement) and never test data values for truthiness. The GROUP BY key list is exactly the select keys in distinct_vars (no further filter); DisambiguateCombineVariables has no exit before the loop over the sub-combines. Combine-local variables are renamed with a number from the execution-level allocator.',
         ref='3/C02'),
     'C04': dict(
         technique='provenance of renamed objects (deep-copy returns, no access to the shared rule index); value-dependence (def-use closure ignoring filters) of the cache key; polarity-aware guards of Make in MakeAll',
@@ -67,7 +67,7 @@ CLAIMED = {
         ref='3/C07'),
     'C10': dict(
         technique='abstract interpretation of QL.StrLiteral per dialect to extract the escaping transformer as data, then exhaustive application to all strings of length <= 3 over a 15-character metacharacter alphabet and decoding with an independent lexer per dialect; payload-flow allow-list; template provenance of format receivers; CFG checks of flag handling',
-        text='(R1) For each of the eight dialects the transformation StrLiteral applies (extracted from the code, not executed) yields exactly one well-formed literal of that dialect that decodes to the original string, for all 3616 strings of the alphabet (exhaustive); (R2) raw string characters are read only by the sanitiser or documented non-data sinks, literals and FlagValue results are emitted by StrLiteral; (R3) no dynamic %/format receiver in the emitters is compiled SQL; (R4) user flags override programmatic override defaults, undefined flags are rejected before values are returned, ${flag} expansion is bounded and the only expanded form. The value SQLite returns at run time is not decided. (R5) the scanner and ParseString agree on which quote kinds interpret backslash escapes; (R3 also) a template is applied atomically, never formatted in two stages. The StrLiteral transformation is obtained by abstract interpretation that follows the payload through helper functions and dialect methods (loops over constant character lists unrolled).',
+        text='(R1) For each of the eight dialects the transformation StrLiteral applies (extracted from the code, not executed) yields exactly one well-formed literal of that dialect that decodes to the original string, for all 3616 strings of the alphabet (exhaustive); (R2) raw string characters are read only by the sanitiser or documented non-data sinks, literals and FlagValue results are emitted by StrLiteral; (R3) no dynamic %/format receiver in the emitters is compiled SQL; (R4) user flags override programmatic override defaults, undefined flags are rejected before values are returned, ${flag} expansion is bounded and the only expanded form. The value SQLite returns at run time is not decided. (R5) the scanner and ParseString agree on which quote kinds interpret backslash escapes; (R3 also) a template is applied atomically, never formatted in two stages. The StrLiteral transformation is obtained by abstract interpretation that follows the payload through helper functions and dialect methods (loops over constant character lists unrolled). Nothing in the merge of flag values decides by the truthiness of a value.',
         ref='3/C10',
         note='Trusted base: the lexical rules of the eight dialects in sa/sqllex.py (assumption A3); CPython ast; the abstract interpreter sa/absint.py.'),
     'C11': dict(
@@ -80,15 +80,15 @@ CLAIMED = {
         ref='3/C12'),
     'C15': dict(
         technique='program-text provenance typing of parse.py (fixpoint from ParseFile through the Split/Strip family) and a who-may-search rule; slice-bound discipline; scanner state table',
-        text='Scanner discipline, not invariance of the parse under all layout noise: (R1) infix searches on program text (in/find/split/replace/re) occur only inside the bracket/string/comment aware scanner family or at six confirmed sites - this is how "characters inside a string literal are treated as syntax" enters a parser built on repeated splitting; (R2) escaping slices of program text have non-negative lower bounds and no step, GetSlice computes spans by plain addition; (R3) every string/comment state of the scanner switches bracket tracking off and SplitRaw splits only at depth 0. RemoveComments copies non-comment characters verbatim; Strip re-strips layout before every outer-parenthesis test. ParseExpression stamps every tree it returns with the span of its own argument on every path.',
+        text='Scanner discipline, not invariance of the parse under all layout noise: (R1) infix searches on program text (in/find/split/replace/re) occur only inside the bracket/string/comment aware scanner family or at six confirmed sites - this is how "characters inside a string literal are treated as syntax" enters a parser built on repeated splitting; (R2) escaping slices of program text have non-negative lower bounds and no step, GetSlice computes spans by plain addition; (R3) every string/comment state of the scanner switches bracket tracking off and SplitRaw splits only at depth 0. RemoveComments copies non-comment characters verbatim; Strip re-strips layout before every outer-parenthesis test. ParseExpression stamps every tree it returns with the span of its own argument on every path. A neighbouring character stops a split only when it is the constant \'|\'.',
         ref='3/C15'),
     'C16': dict(
         technique='abstract interpretation of reference_algebra.Rank and Unify over the 11 type classes: exhaustive enumeration of all 121 ordered pairs and all paths, compared with a specification matrix derived from the property statement',
-        text='Top-level case analysis, exhaustive: for every ordered pair of type classes Unify is total (no reachable assertion), gives the same outcome with roles swapped, reports a clash exactly when the classes have no common instance (conditional for lists on elements and for closed records on field sets), changes nothing when either side already carries an error, makes Singular ^ Sequential = Str and links both references on success; (R2) record merging keeps the union of fields; (R3) chains are compressed before the identity test. Laws on nested terms (idempotence after repetition, order independence for triples) need evaluation on terms and are NOT decided. Only Unify, UnifyFriendlyRecords, CloseRecord and the constructor write `.target`, each at the end of the chain. The relation that decides Closed x Closed is symmetric in the two field sets.',
+        text='Top-level case analysis, exhaustive: for every ordered pair of type classes Unify is total (no reachable assertion), gives the same outcome with roles swapped, reports a clash exactly when the classes have no common instance (conditional for lists on elements and for closed records on field sets), changes nothing when either side already carries an error, makes Singular ^ Sequential = Str and links both references on success; (R2) record merging keeps the union of fields; (R3) chains are compressed before the identity test. Laws on nested terms (idempotence after repetition, order independence for triples) need evaluation on terms and are NOT decided. Only Unify, UnifyFriendlyRecords, CloseRecord and the constructor write `.target`, each at the end of the chain. The relation that decides Closed x Closed is symmetric in the two field sets. Two unified lists both receive the unified element references.',
         ref='3/C16'),
     'C17': dict(
         technique='dominance on the CFG of TranslateTableAttachedToFile; abstract interpretation with string skeletons over engine x overwrite scenarios of the exported statement text',
-        text='Statement construction only, not table contents after sequences of runs: (R1) the already-defined test precedes construction, the table is registered before its body is compiled, the export statement is appended after the recursive compilation; (R2) on every path and engine, with overwrite the exported text drops or replaces exactly the table it creates (or registers the ClickHouse drop action), without overwrite nothing is dropped; (R3) FormattedPredicateSql compiles the requested predicate directly and never through TranslateTable. (R4) OkInjection is false whenever Ground(p) is present and every InjectStructure is guarded by OkInjection of the predicate being injected at the time it is injected.',
+        text='Statement construction only, not table contents after sequences of runs: (R1) the already-defined test precedes construction, the table is registered before its body is compiled, the export statement is appended after the recursive compilation; (R2) on every path and engine, with overwrite the exported text drops or replaces exactly the table it creates (or registers the ClickHouse drop action), without overwrite nothing is dropped; (R3) FormattedPredicateSql compiles the requested predicate directly and never through TranslateTable. (R4) OkInjection is false whenever Ground(p) is present and every InjectStructure is guarded by OkInjection of the predicate being injected at the time it is injected. Inside the loop over the requested predicates no container is both grown and consulted.',
         ref='3/C17'),
     'C20': dict(
         technique='tokenisation of the effective SQLite templates and library SqlExpr templates against the literal create_function / create_aggregate registrations and SQLite core function list; placeholder/field agreement; accumulator analysis shared with C07',
@@ -142,7 +142,7 @@ def main():
                     serves_properties=sorted(CLAIMED),
                     kind_free_text='custom static analysis over Python ast (program model, CFG/dominators, table extraction, string-template skeletons, set-order taint, finite abstract interpretation) and the clang JSON AST of the C++ parser')],
       checks=checks,
-      notes='Static analysis only; every check re-parses /repo on each run. Exit 0 held / 1 VIOLATION / 2 ANALYSIS-ERROR (anchor vanished or checker broke). Thorough tier adds the whole-repo scope and the self-test of the property (selftest/): hand-written and independently seeded mutants must be reported (seeded/), hand-written twins, seven whole-tree behaviour-preserving transformations and 132 independently written behaviour-preserving refactorings (benign/) must stay silent.',
+      notes='Static analysis only; every check re-parses /repo on each run. Exit 0 held / 1 VIOLATION / 2 ANALYSIS-ERROR (anchor vanished or checker broke). Thorough tier adds the whole-repo scope and the self-test of the property (selftest/): hand-written and independently seeded mutants must be reported (seeded/), hand-written twins, seven whole-tree behaviour-preserving transformations and 221 independently written behaviour-preserving refactorings (benign/) must stay silent.',
       not_applicable=na)
   with open(os.path.join(VERIF, 'MANIFEST.json'), 'w') as f:
     json.dump(manifest, f, indent=1)
